@@ -43,7 +43,7 @@ KIND_PROPS = {
     "r_receive":    {"C07", "C11", "C13", "C14"},
     "f_cfg":        {"C14"},
     "f_create":     {"C14", "C16", "C19"},
-    "f_add":        {"C14", "C17"},
+    "f_add":        {"C14", "C16", "C17"},
     "f_mig":        {"C14"},
     "bank_send":    {"C03", "C07"},
     "tok_transfer": {"C03", "C07"},
